@@ -321,9 +321,28 @@ class Translator:
         # (c) statement sequence
         stmts = []; env = {}
         final = None
+        pending = {}   # name -> (parser expression, index of the opening begin_keywords effect) for `let ret = E(s);`
         for kind, st in stmts_src:
             if kind == 'tail':
                 final = st; break
+            # scoped keyword table:  begin_keywords("v"); let ret = E(s); end_keywords(); let (s, x) = ret?;
+            if (st[0] == 'let' and st[1][0] == 'pvar' and st[2][0] == 'call' and st[2][2] == [('path', 's')]
+                    and stmts and stmts[-1][0] == 'beginKw'):
+                pending[st[1][1]] = (self.tr(st[2][1], holes), stmts[-1][1], 'open')
+                stmts.pop()
+                continue
+            if pending and st == ('call', ('path', 'end_keywords'), []):
+                nm = [k for k, v in pending.items() if v[2] == 'open']
+                if len(nm) != 1: raise Unsupported('scoped keywords shape')
+                pending[nm[0]] = (pending[nm[0]][0], pending[nm[0]][1], 'closed')
+                continue
+            if (st[0] == 'let' and st[1][0] == 'ptuple' and len(st[1][1]) == 2 and st[1][1][0] == ('pvar', 's')
+                    and st[2][0] == 'try' and st[2][1][0] == 'path' and st[2][1][1] in pending):
+                pe0, v, state = pending.pop(st[2][1][1])
+                if state != 'closed': raise Unsupported('scoped keywords: result used before end_keywords')
+                self.bind_pattern(st[1][1][1], ('kwScope', v, pe0), stmts, env)
+                continue
+            if pending and any(v[2] == 'open' for v in pending.values()): raise Unsupported('statement inside scoped keywords')
             if st[0] == 'let':
                 pat, val = st[1], st[2]
                 if (pat[0] == 'ptuple' and len(pat[1]) == 2 and pat[1][0] == ('pvar', 's')
@@ -349,6 +368,7 @@ class Translator:
                     continue
                 raise Unsupported('let form')
             stmts.append(self.effect_stmt(st))
+        if pending: raise Unsupported('scoped keywords: dangling result')
         t = re.sub(r'\s+', ' ', re.sub(r'//[^\n]*', '', rest).strip())
         m = self.NESTL.match(t)
         if m:
